@@ -465,7 +465,7 @@ def cmif_cases(thorough):
         for syms in itertools.product("abc", repeat=L):
             for nSv in ["all"] + list(range(1, nch)):
                 for route in ("cmif", "fdd.cmif"):
-                    for fl in ((None, (0.4, 1.2)) if thorough else (None,)):
+                    for fl in (None, (0.4, 1.2)):
                         cases.append({"kind": "cmif", "route": route, "nch": nch, "syms": "".join(syms), "nSv": nSv, "freqlim": fl})
     return cases
 
@@ -508,7 +508,7 @@ def explore(ctx):
         "hide_poles": [True, False], "freqlim": [None, list(LO_HI)], "covariance_table": [None, "mixed small/large (|cov*Fn| below and above 0.5)"],
         "step": 1, "ordmin": 0,
         "cmif": {"channels": [2, 3, 4], "lines": 6 if ctx.thorough else 4, "symbols_per_line": LEVELS, "nSv": "all, 1..n-1",
-                 "routes": ["plot.CMIF_plot", "FDD.plot_CMIF"], "freqlim": [None, [0.4, 1.2]] if ctx.thorough else [None]},
+                 "routes": ["plot.CMIF_plot", "FDD.plot_CMIF"], "freqlim": [None, [0.4, 1.2]]},
         "figures": len(tc) + len(cc),
     }
     # interleave cheap and expensive cases; ~24 figures per item
